@@ -169,12 +169,15 @@ class Gen:
     def call_expr(self, d, numeric=False):
         f = self.rng.choice(sorted(f for f in self.funcs if not numeric or self.fret.get(f) == "num"))
         n = self.funcs[f]
-        if self.rng.random() < 0.05:
-            n = max(0, n + self.rng.choice([-1, 1]))
+        if self.rng.random() < 0.1:
+            # a wrong number of arguments (one too many also for a method without inputs): an error, the body does not run
+            n = n + 1 if n == 0 else max(0, n + self.rng.choice([-1, 1]))
         return Call(f, [self.expr(self.rng.choice(["num", "num", "any"]), d + 1) for _ in range(n)])
 
     def new_expr(self, c, d):
         n = self.classes[c]["ctor"]
+        if n is not None and self.rng.random() < 0.08:
+            n = n + 1 if n == 0 else max(0, n + self.rng.choice([-1, 1]))
         args = [] if n is None else [self.expr("num", d + 1) for _ in range(n)]
         if n is None and self.rng.random() < 0.2:
             args = [self.num_lit()]
@@ -294,6 +297,15 @@ class Gen:
                 if rng.random() < 0.5:
                     out.append(ExprS(AssignVar(r, self.num_lit())))
                 return out
+        if self.funcs and rng.random() < 0.25:
+            # an inner block declares a variable under the name of a method of the module: inside the block the name is the
+            # variable — reading it gives the number, calling it is an error (it is not a method) — and the method is back afterwards
+            fn = rng.choice(sorted(self.funcs))
+            inner = [Decl([(False, [fn], self.num_lit())]), Display(Var(fn))]
+            if rng.random() < 0.6:
+                inner.append(Display(Call(fn, [self.num_lit() for _ in range(self.funcs[fn])])))
+            after = [Display(Call(fn, [self.num_lit() for _ in range(self.funcs[fn])]))] if rng.random() < 0.5 else []
+            return [Branch(Logic("eq", Num(1), Num(1)), inner)] + after
         # shadowing: an inner block redeclares an outer name (constant or not), changes it, and the outer one is read again
         if not live:
             return self.s_decl(d)
@@ -519,6 +531,8 @@ class Gen:
             return self.s_assign(d)
         m = self.rng.choice(sorted(info["methods"]))
         k = info["methods"][m]
+        if self.rng.random() < 0.08:
+            k = k + 1 if k == 0 else max(0, k + self.rng.choice([-1, 1]))
         args = [self.expr("num", d + 1) for _ in range(k)]
         if self.rng.random() < 0.3:
             r = self.fresh()
@@ -616,6 +630,11 @@ class Gen:
         x = self.rng.random()
         if x < 0.12:
             inner = "Fi" + self.rng.choice("xyz")
+            if self.funcs and self.rng.random() < 0.4:
+                # ... under the name of a method of the module: inside this body the name means the local definition
+                cands = [g for g in sorted(self.funcs) if self.funcs[g] == 0 and g != f]
+                if cands:
+                    inner = self.rng.choice(cands)
             idef = Func(inner, [], [Return(Num(self.rng.randrange(300, 400)))], [])
             if x < 0.05 and self.ret_type is None:
                 body = [idef]
